@@ -1,4 +1,5 @@
 import GoSSE.Proofs.GenEquiv
+import GoSSE.Proofs.GenEquivScan
 import GoSSE.Proofs.ParserRange
 import GoSSE.Proofs.ParserPulled
 import GoSSE.Proofs.ParserRun
@@ -130,6 +131,27 @@ result is always nil. The index facts above (`split_indices_in_range`) therefore
 theorem translated_splitFunc_is_model (fuel : Nat) (data : Bytes) (atEOF : Bool) (hf : data.length < fuel) :
     Gen.splitFunc fuel data atEOF = .ok (((splitFunc data atEOF).1 : Int), (splitFunc data atEOF).2, none) :=
   GenEquiv.splitFunc_eq fuel data atEOF hf
+
+/-- `(*bufio.Scanner).Scan` *as translated from the installed toolchain's bufio/scan.go* — the buffer management the
+size limit of this property lives in: shift, grow up to `maxTokenSize`, `ErrTooLong`, the read loop, the final token at
+EOF — with go-sse's translated `splitFunc` as its split function, does in one call exactly what the model's
+`Scanner.scan` does (the function `pulled_bounded`, `fits_implies_complete` and C01's theorems are stated over): it
+returns `true` exactly when the model yields a token, that token is in `s.token`, and the scanner afterwards stands
+for the model's (`Rel`: pending bytes, buffer length, limit, reader, sticky error). It never panics — no slice
+expression out of range, no "too many empty tokens" — and its loops end. Hypotheses: the sizes are below the fuel
+and `maxInt/2`, and the reader never returns `0, nil` (`Bnd`). -/
+theorem translated_bufio_Scan_is_model (F : Nat) (g : Gen.Scanner) (m : Scanner) (hR : GenEquiv.Rel F g m)
+    (hB : GenEquiv.Bnd F m) (hI : SInv m) (hk : (if m.err.isSome then 1 else m.src.size + 2) ≤ F) :
+    ∃ g', Gen.Scanner_Scan F g = .ok ((Scanner.scan F m).1.isSome, g') ∧ GenEquiv.Rel F g' (Scanner.scan F m).2 ∧
+      (∀ t, (Scanner.scan F m).1 = some t → g'.token = some t.2) ∧ GenEquiv.Bnd F (Scanner.scan F m).2 :=
+  GenEquiv.Scan_eq F g m hR hB hI hk
+
+/-- the hypotheses hold of a scanner as `parser.New` (and `Parser.Buffer`) leave it, so the theorem applies to the
+first call; it re-establishes them (`Rel`, `Bnd`; `SInv` by `scan_spec`), so it applies to every later call -/
+theorem translated_bufio_initial (F : Nat) (src : Source) (buf : Bytes) (max : Int) :
+    GenEquiv.Rel F (GenEquiv.newGenScanner F src buf max) (mkScanner src (some (buf.length, max))) ∧
+    GenEquiv.Rel F (GenEquiv.newGenScanner F src [] 65536) (mkScanner src none) :=
+  ⟨GenEquiv.rel_initial F src buf max, GenEquiv.rel_initial_default F src⟩
 
 /-- non-vacuity: the translated function on "a\n\nb" (at EOF) yields the token "a\n\n" with advance 3 -/
 example : Gen.splitFunc 7 [97, 10, 10, 98] true = .ok (3, some [97, 10, 10], none) := by rfl
